@@ -1530,4 +1530,4 @@ func replay(raw json.RawMessage) error {
 	return nil
 }
 
-func main() { core.Main("C16", gen, replay) }
+func main() { core.MainWithFacts("C16", gen, replay, facts) }
